@@ -119,7 +119,10 @@ class Prop:
     def too_many(self):
         """stop a phase after 25 failures of that phase's kind"""
         kind = getattr(self, "phase", None)
-        return sum(1 for f in self.fails if kind is None or f["kind"] == kind) >= 25
+        if not hasattr(self, "_known_sigs"):
+            self._known_sigs = set(load_known(self.pid))
+        # known findings do not use up the quota: they would otherwise end a phase early and hide other violations
+        return sum(1 for f in self.fails if (kind is None or f["kind"] == kind) and f["sig"] not in self._known_sigs) >= 25
 
     def driver(self):
         if self.drv is None:
